@@ -594,8 +594,10 @@ func resetReaderPool(maxDoc int) error {
 		return p.n
 	}
 	if a, b := probe(maxDoc-1), probe(maxDoc+1); a != 1 || b != 0 {
+		// the pool is empty, so the reader was created with this handler's limit: the handler
+		// itself does not honour it
 		poolMaxDoc = 0
-		return fmt.Errorf("harness: reader pool not reset to limit %d (probe kept %d/%d)", maxDoc, a, b)
+		return evid.Failf("size-limit-probe", "limit %d, fresh reader pool: a line of %d bytes was delivered %d times (want 1), a line of %d bytes %d times (want 0)", maxDoc, maxDoc-1, a, maxDoc+1, b)
 	}
 	poolMaxDoc = maxDoc
 	return nil
